@@ -288,6 +288,6 @@ class _session(e2e.Session):
         self.failure = None
         self.pkg = e2e.import_package(case, scratch)
         self.server = e2e.server_for(case)
-        self.transport = e2e.Transport(lambda body, req: (200, self.server.handle(body)[0]))
+        self.transport = e2e.Transport(self._respond)
         self.client = e2e.make_client(self.pkg, case, self.transport)
         self.ops = {o["name"]: o for o in case["ops"]}
